@@ -200,6 +200,12 @@ def cases(tier):
         cs.append((case_pbn, f'PBN layout {j}: {n} boards, blank runs {len(lay["before"])}/{len(lay["between"])}/{len(lay["after"])}, '
                              f'eol {"CRLF" if lay["eol"] != chr(10) else "LF"}, order {"".join(x[0] + x[1] for x in lay["order"])}, extra={lay["extra"]}, header={lay["header"]}, table={lay["table"]}',
                    dict(layout=lay, n=n, sym_i=j % n, id_len=2 + j % 2)))
+    # the hand codec that the PBN cases replace by its contract (round trip, canonical text, and: every decode hands out a
+    # set of its own - parsed boards are consumed in place by the play engine) is discharged here on a few suit shapes;
+    # C14 runs all of them
+    from harness import C14
+    hc = [c for c in C14.cases(tier) if c[0] is C14.case_pbn_hand]
+    cs += hc[:(6 if tier == 'thorough' else 2)]
     cs.append((case_pbn, 'PBN: empty file (0 boards)', dict(layout=dict(before=[''], between=[], after=[], eol='\n', order=NEEDED, extra=False, header=True, table=False), n=0, sym_i=0, id_len=0)))
     return cs
 
